@@ -454,9 +454,24 @@ func runRac(vd, repo, prop string, b RacRef, tier string, seed int, known []Know
 	if b.Race {
 		cgo = "CGO_ENABLED=1"
 	}
-	cmd.Env = append(os.Environ(), cgo, "GOFLAGS=-mod=mod", "GOPROXY=off", "GOSUMDB=off", "GOTOOLCHAIN=local", "VERIF_TIER="+tier, fmt.Sprintf("VERIF_SEED=%d", seed), "RAC_OUT="+outFile)
+	// the thorough tier repeats the randomised part with further seeds (the enumerated part is the same each time)
+	seeds := []int{seed}
+	if tier == "thorough" {
+		seeds = []int{seed, seed + 1, seed + 2}
+	}
+	rep.summary["seeds"] = seeds
 	t0 := time.Now()
-	out, _ := cmd.CombinedOutput()
+	var out []byte
+	for k, sd := range seeds {
+		c := cmd
+		if k > 0 {
+			c = exec.Command("go", args...)
+			c.Dir = dir
+		}
+		c.Env = append(os.Environ(), cgo, "GOFLAGS=-mod=mod", "GOPROXY=off", "GOSUMDB=off", "GOTOOLCHAIN=local", "VERIF_TIER="+tier, fmt.Sprintf("VERIF_SEED=%d", sd), "RAC_OUT="+outFile)
+		o, _ := c.CombinedOutput()
+		out = append(out, o...)
+	}
 	rep.summary["wall_s"] = time.Since(t0).Seconds()
 	data, _ := os.ReadFile(outFile)
 	cases, fails := 0, 0
